@@ -1232,21 +1232,21 @@ static inline SyntaxKind recognize12(const char* s, const ParseOptions& opts)
                 }
             }
         }
-        else if (s[1] == 't'
-                 && opts.languageExtensions().translations().isEnabled_Translate_thread_local_AsKeyword()) {
-            if (s[2] == 'h') {
-                if (s[3] == 'r') {
-                    if (s[4] == 'e') {
-                        if (s[5] == 'a') {
-                            if (s[6] == 'd') {
-                                if (s[7] == '_') {
-                                    if (s[8] == 'l') {
-                                        if (s[9] == 'o') {
-                                            if (s[10] == 'c') {
-                                                if (s[11] == 'a') {
-                                                    if (s[12] == 'l') {
-                                                        return SyntaxKind::Keyword__Thread_local;
-                                                    }
+    }
+    else if (s[0] == 't'
+             && opts.languageExtensions().translations().isEnabled_Translate_thread_local_AsKeyword()) {
+        if (s[1] == 'h') {
+            if (s[2] == 'r') {
+                if (s[3] == 'e') {
+                    if (s[4] == 'a') {
+                        if (s[5] == 'd') {
+                            if (s[6] == '_') {
+                                if (s[7] == 'l') {
+                                    if (s[8] == 'o') {
+                                        if (s[9] == 'c') {
+                                            if (s[10] == 'a') {
+                                                if (s[11] == 'l') {
+                                                    return SyntaxKind::Keyword__Thread_local;
                                                 }
                                             }
                                         }
